@@ -3060,6 +3060,12 @@ def merge_dequant_lut_quant(op, arch, nng=None):
     if pre_op.type != Op.Dequantize:
         return op
 
+    # The float result must have no other reader: it no longer exists once the three operations are one
+    if len(lut_op.outputs[0].consumer_list) != 1:
+        return op
+    if nng is not None and any(lut_op.outputs[0] in sg.output_tensors for sg in nng.subgraphs):
+        return op
+
     lut_op.set_input_tensor(pre_op.inputs[0], 0)
     lut_op.set_output_tensor(post_op.outputs[0])
 
